@@ -97,8 +97,8 @@ Proof.
       * apply (IH (n + 1) []) with (st := st); [intros ? []|exact Ist|exact It].
 Qed.
 
-Theorem compile_ranges p a : N.of_nat (length p) < 65536 -> is_bytes p -> compile p = Ok (Some a) -> ranges_ok a.
+Theorem compile_ranges p a : is_bytes p -> compile p = Ok (Some a) -> ranges_ok a.
 Proof.
-  intros Hl Hb Hc. destruct (compile_chain p a Hl Hc) as (es & P & ->).
+  intros Hb Hc. destruct (compile_chain p a Hc) as (es & P & ->).
   intros st Ist t It. exact (chain_ranges es (parses_elems_ok p es P Hb) 0 [] (fun t (H : In t []) => match H with end) st Ist t It).
 Qed.
